@@ -147,7 +147,9 @@ class ConvL(_Base):
             t = self.block(op.true_region.block) if op.true_region.blocks else []
             e = self.block(op.false_region.block) if op.false_region.blocks else []
             res = []
-            for i, r in enumerate(op.results):
+            # the order of the scf.if results follows Python dict order in the real pass; it carries no meaning: the
+            # canonical form lists (and numbers) them by accelerator
+            for i, r in sorted(enumerate(op.results), key=lambda ir: (self.acc(ir[1].type.accelerator.data), ir[0])):
                 ty = op.true_region.block.last_op.operands[i]
                 ey = op.false_region.block.last_op.operands[i]
                 res.append([self.acc(r.type.accelerator.data), self.new(r), self.ref(ty), self.ref(ey)])
